@@ -129,7 +129,7 @@ func RunSchedule(job *Job, sc Schedule, timeout time.Duration) (res Result) {
 			return res
 		}
 		if st.Obs != nil && !st.Obs.Locked {
-			if d := observe(q, s, st.Obs); d != "" {
+			if d := observeGuarded(q, s, st.Obs, timeout); d != "" {
 				res.Status, res.Detail = "drift", fmt.Sprintf("step %d %s(%s): %s", i, st.A, st.P, d)
 				return res
 			}
@@ -217,6 +217,19 @@ func doCall(q col.QueueLike[int], c Call) any {
 		return map[string]any{"t": "seq", "v": a}
 	}
 	panic("unknown op " + c.Op)
+}
+
+// observeGuarded runs observe under a watchdog: on code whose locking differs
+// from the model the observer itself may block on the queue's mutex.
+func observeGuarded(q col.QueueLike[int], s *Sched, o *Obs, timeout time.Duration) string {
+	var done = make(chan string, 1)
+	go func() { done <- observe(q, s, o) }()
+	select {
+	case d := <-done:
+		return d
+	case <-time.After(timeout):
+		return "the observer blocked on the queue (its mutex is held across a scheduling point)"
+	}
 }
 
 // observe compares the real queue with the model state after a step.
